@@ -50,14 +50,18 @@ func Harness_C14_selection() {
 	zz.MustCover("(*github.com/honeycombio/refinery/config.fileConfig).DetermineSamplerKey",
 		"(*github.com/honeycombio/refinery/config.fileConfig).GetSamplerConfigForDestName",
 		"(*github.com/honeycombio/refinery/config.fileConfig).GetSamplingKeyFieldsForDestName")
-	zz.Bound("name_len_max", 2)
 	keys := []string{verifClassicKey, verifIngestKey, verifEnvKey, "", "short"}
 	kc := zz.Choose("keyClass", len(keys))
 	apiKey := keys[kc]
 	classic := kc <= 1
-	env := zz.NondetString("env", 2)
-	dataset := zz.NondetString("dataset", 1)
-	prefix := zz.NondetString("prefix", 1)
+	extra := 0
+	if zz.Thorough() {
+		extra = 1
+	}
+	zz.Bound("name_len_max", 2+extra)
+	env := zz.NondetString("env", 2+extra)
+	dataset := zz.NondetString("dataset", 1+extra)
+	prefix := zz.NondetString("prefix", 1+extra)
 	name1 := zz.NondetString("samplerName1", 3)
 	hasDefault := zz.NondetBool("hasDefault")
 	samplers := map[string]*V2SamplerChoice{
